@@ -444,7 +444,7 @@ def read_body_loop_exits(F, R, rule, tracer):
 FORGET_RX = r"^std::mem::forget$|^std::mem::ManuallyDrop::<.*>::new$|^std::boxed::Box::<.*>::leak$|^std::sync::Arc::<.*>::into_raw$|OwnedSemaphorePermit::forget$|SemaphorePermit::<'.*>::forget$|Semaphore::forget_permits$|Semaphore::add_permits$"
 
 
-def forget_scan(F, R, rule, crates):
+def forget_scan(F, R, rule, crates, floor=400):
     """no forget-like call in non-test code of `crates` (permits are RAII all the way)"""
     hits = []
     scanned = 0
@@ -458,7 +458,7 @@ def forget_scan(F, R, rule, crates):
             if re.search(FORGET_RX, c.name() or "") or re.search(FORGET_RX, c.callee or ""):
                 hits.append(c)
     R.extra[rule + ".bodies_scanned"] = scanned
-    R.floor(rule + ".scan", scanned, 400, "bodies scanned for forget-like calls")
+    R.floor(rule + ".scan", scanned, floor, "bodies scanned for forget-like calls")
     for c in hits:
         R.bad(rule, "forget:%s:%s" % (fkey(c.body), c.name().split("::")[-1]), "forget-like call %s in %s: a permit (or a value owning one) can be leaked, the slot is never returned" % (short(c.name()), short(c.body.path)), where(c))
     if not hits:
@@ -537,3 +537,13 @@ def tainted_switches(body, tainted):
             if p is not None and p["l"] in tainted:
                 out.append(bi)
     return out
+
+
+def control(ctx, rule, what, fn):
+    """positive control for a zero-expected rule: `fn(scratch_report)` is run on the fixtures facts and MUST report"""
+    from ..report import Report
+
+    scratch = Report(ctx.R.pid, ctx.R.tier)
+    fn(scratch)
+    hits = [v for v in scratch.violations if "FLOOR" not in v["key"] and "ANCHOR-LOST" not in v["key"]]
+    ctx.R.check(bool(hits), rule + ".control", "control:" + what, "positive control: the rule fires on the fixture (%d reports, e.g. %s)" % (len(hits), hits[0]["what"][:90] if hits else ""), "positive control failed: the rule does not fire on the fixture construct `%s`, so a pass on the real tree means nothing" % what, None)
